@@ -285,9 +285,16 @@ Proof.
 Qed.
 
 (** the writes of Endpoint.Hash *)
-Lemma ep_fields_eq H ho e :
-  ep_fields H ho e = [FV (tpl_text (e_url e)); FV (e_method e)] ++ kv_fields (texts (order_by ho (e_headers e))) ++ auth_fields H (e_auth e).
+Lemma ep_fields_eq fx H ho e :
+  ep_fields fx H ho e = [FV (tpl_text (e_url e)); FV (e_method e)]
+                        ++ kv_fields (texts (order_by (hash_order fx ho (e_headers e)) (e_headers e)))
+                        ++ auth_fields H (e_auth e).
 Proof. reflexivity. Qed.
+
+(** hashed by key or as iterated, the order is a permutation of the map's keys *)
+Lemma hash_order_perm {A} fx ho (m : list (string * A)) :
+  Permutation ho (map fst m) -> Permutation (hash_order fx ho m) (map fst m).
+Proof. intro P. unfold hash_order. destruct (fx1 fx); [apply Permutation_refl | exact P]. Qed.
 
 Definition wf_ep (e : ep) : Prop :=
   sortedb (e_headers e) = true /\ wf_tplb (e_url e) = true /\ forallb (fun kt => wf_tplb (snd kt)) (e_headers e) = true.
@@ -299,13 +306,14 @@ Qed.
 
 (** Endpoint.Hash is injective on well-formed endpoints, whatever the iteration
     orders, if SHA-256 does not collide and no write is shifted *)
-Lemma ep_fields_inj H ho1 ho2 e1 e2 :
+Lemma ep_fields_inj fx H ho1 ho2 e1 e2 :
   injective H -> wf_ep e1 -> wf_ep e2 ->
   Permutation ho1 (map fst (e_headers e1)) -> Permutation ho2 (map fst (e_headers e2)) ->
   guard_shift (auth_pre (e_auth e1)) (auth_pre (e_auth e2)) = false ->
-  ep_fields H ho1 e1 = ep_fields H ho2 e2 -> e1 = e2.
+  ep_fields fx H ho1 e1 = ep_fields fx H ho2 e2 -> e1 = e2.
 Proof.
   intros Hinj (S1 & U1 & W1) (S2 & U2 & W2) P1 P2 Ga E.
+  apply (hash_order_perm fx) in P1. apply (hash_order_perm fx) in P2.
   rewrite !ep_fields_eq in E. simpl in E. injection E as Eu Em E.
   destruct (kv_tail_split _ _ _ _ (auth_fields_tail H _) (auth_fields_tail H _) E) as [Et Ea].
   apply (auth_fields_inj H _ _ Hinj Ga) in Ea.
@@ -314,7 +322,7 @@ Proof.
   { apply texts_inj; auto. apply sorted_perm_eq.
     - unfold texts. now rewrite sortedb_map_snd.
     - unfold texts. now rewrite sortedb_map_snd.
-    - apply Permutation_trans with (texts (order_by ho1 (e_headers e1))).
+    - apply Permutation_trans with (texts (order_by (hash_order fx ho1 (e_headers e1)) (e_headers e1))).
       + apply Permutation_sym. unfold texts. apply Permutation_map. now apply order_by_perm.
       + rewrite Et. unfold texts. apply Permutation_map. now apply order_by_perm. }
   destruct e1, e2. simpl in *. congruence.
@@ -322,13 +330,13 @@ Qed.
 
 (* ------------------------------------------------------------------ keys are injective on their components *)
 
-Lemma key_of_some H s k :
-  key_of H s = Some k ->
+Lemma key_of_some fx H s k :
+  key_of fx H s = Some k ->
   enabled (st_inst s) = true /\
-  exists f, key_fields H (st_ho s) (st_vo s) (st_inst s) (st_req s) = Some f /\ k = hex (H (cat f)).
+  exists f, key_fields fx H (st_ho s) (st_vo s) (st_inst s) (st_req s) = Some f /\ k = hex (H (cat f)).
 Proof.
   unfold key_of, cache_key. destruct (enabled (st_inst s)); [|discriminate].
-  destruct (key_fields H (st_ho s) (st_vo s) (st_inst s) (st_req s)) as [f|]; [|discriminate].
+  destruct (key_fields fx H (st_ho s) (st_vo s) (st_inst s) (st_req s)) as [f|]; [|discriminate].
   simpl. intro E. injection E as <-. split; auto. exists f. split; reflexivity.
 Qed.
 
@@ -362,11 +370,11 @@ Proof. reflexivity. Qed.
 (** the orders of one look-up are permutations of its maps *)
 Definition orders_valid (s : step) : Prop := valid_orders (st_inst s) (st_ho s) (st_vo s).
 
-Lemma ordered_values_eq i1 q1 vo1 v1 p1 i2 q2 vo2 v2 p2 :
+Lemma ordered_values_eq fx i1 q1 vo1 v1 p1 i2 q2 vo2 v2 p2 :
   wf_instb i1 = true -> wf_instb i2 = true ->
   Permutation vo1 (map fst (i_values i1)) -> Permutation vo2 (map fst (i_values i2)) ->
   rendered i1 q1 = Some (v1, p1) -> rendered i2 q2 = Some (v2, p2) ->
-  kv_fields (order_by vo1 v1) = kv_fields (order_by vo2 v2) -> v1 = v2.
+  kv_fields (order_by (hash_order fx vo1 v1) v1) = kv_fields (order_by (hash_order fx vo2 v2) v2) -> v1 = v2.
 Proof.
   intros W1 W2 P1 P2 R1 R2 E. apply kv_fields_inj in E.
   destruct (wf_inst_ep i1 W1) as [_ S1]. destruct (wf_inst_ep i2 W2) as [_ S2].
@@ -374,20 +382,21 @@ Proof.
   rewrite <- (sortedb_same_keys v1 (i_values i1) N1) in S1.
   rewrite <- (sortedb_same_keys v2 (i_values i2) N2) in S2.
   rewrite <- N1 in P1. rewrite <- N2 in P2.
+  apply (hash_order_perm fx) in P1. apply (hash_order_perm fx) in P2.
   apply sorted_perm_eq; auto.
-  apply Permutation_trans with (order_by vo1 v1).
+  apply Permutation_trans with (order_by (hash_order fx vo1 v1) v1).
   - apply Permutation_sym. now apply order_by_perm.
   - rewrite E. now apply order_by_perm.
 Qed.
 
 (** the endpoint hashes of two well-formed instances agree only if the endpoints do *)
-Lemma ep_hash_inj H a b :
+Lemma ep_hash_inj fx H a b :
   injective H -> wf_instb (st_inst a) = true -> wf_instb (st_inst b) = true ->
   orders_valid a -> orders_valid b ->
   (negb (ep_eqb (eff_ep (st_inst a)) (eff_ep (st_inst b))) &&
-   (guard_shift (ep_fields H (st_ho a) (eff_ep (st_inst a))) (ep_fields H (st_ho b) (eff_ep (st_inst b))) ||
+   (guard_shift (ep_fields fx H (st_ho a) (eff_ep (st_inst a))) (ep_fields fx H (st_ho b) (eff_ep (st_inst b))) ||
     guard_shift (auth_pre (e_auth (eff_ep (st_inst a)))) (auth_pre (e_auth (eff_ep (st_inst b)))))) = false ->
-  ep_hash H (st_ho a) (eff_ep (st_inst a)) = ep_hash H (st_ho b) (eff_ep (st_inst b)) ->
+  ep_hash fx H (st_ho a) (eff_ep (st_inst a)) = ep_hash fx H (st_ho b) (eff_ep (st_inst b)) ->
   eff_ep (st_inst a) = eff_ep (st_inst b).
 Proof.
   intros Hinj Wa Wb [Pa _] [Pb _] G E.
@@ -399,8 +408,8 @@ Proof.
     eapply ep_fields_inj; eauto.
 Qed.
 
-Lemma key_fields_length H ho vo i q f :
-  key_fields H ho vo i q = Some f ->
+Lemma key_fields_length fx H ho vo i q f :
+  key_fields fx H ho vo i q = Some f ->
   match i_kind i with
   | KIntro => length f = 3
   | KGen => length f = 2
@@ -412,9 +421,9 @@ Proof.
   - intro E. injection E as <-. reflexivity.
   - intro E. injection E as <-. reflexivity.
   - destruct (rendered i q) as [[vals payload]|]; [|discriminate]. intro E. injection E as <-.
-    exists (length (order_by vo vals)). simpl. rewrite ?app_length, kv_fields_length. simpl. lia.
+    exists (length (order_by (hash_order fx vo vals) vals)). simpl. rewrite ?app_length, kv_fields_length. simpl. lia.
   - destruct (rendered i q) as [[vals payload]|]; [|discriminate]. intro E. injection E as <-.
-    exists (length (order_by vo vals)). simpl. rewrite ?app_length, kv_fields_length. simpl. lia.
+    exists (length (order_by (hash_order fx vo vals) vals)). simpl. rewrite ?app_length, kv_fields_length. simpl. lia.
 Qed.
 
 Local Opaque le64.
@@ -422,25 +431,25 @@ Local Opaque le64.
 (** Key injectivity: for a collision-free SHA-256, two look-ups of well-formed
     instances that use the same key have the same key components, unless their
     pre-images can be shifted against each other (guard of C11-F4). *)
-Theorem key_injective : forall H a b k,
+Theorem key_injective : forall fx H a b k,
   injective H ->
   wf_instb (st_inst a) = true -> wf_instb (st_inst b) = true -> orders_valid a -> orders_valid b ->
-  key_of H a = Some k -> key_of H b = Some k ->
-  p_F4 H a b = false ->
+  key_of fx H a = Some k -> key_of fx H b = Some k ->
+  p_F4 fx H a b = false ->
   exists c, components a = Some c /\ components b = Some c.
 Proof.
-  intros H a b k Hinj Wa Wb Oa Ob Ka Kb G.
-  destruct (key_of_some H a k Ka) as (Ea & fa & Fa & Ha).
-  destruct (key_of_some H b k Kb) as (Eb & fb & Fb & Hb).
+  intros fx H a b k Hinj Wa Wb Oa Ob Ka Kb G.
+  destruct (key_of_some fx H a k Ka) as (Ea & fa & Fa & Ha).
+  destruct (key_of_some fx H b k Kb) as (Eb & fb & Fb & Hb).
   unfold p_F4, both in G. rewrite Ea, Eb in G. simpl in G.
   apply orb_false_iff in G as [Gk Ge].
   unfold opt_fields in Gk. rewrite Ea, Eb, Fa, Fb in Gk.
   assert (Ef : fa = fb).
   { apply no_boundary_shift; auto. apply Hinj. apply hex_inj. congruence. }
   subst fb.
-  pose proof (key_fields_length _ _ _ _ _ _ Fa) as La.
-  pose proof (key_fields_length _ _ _ _ _ _ Fb) as Lb.
-  pose proof (ep_hash_inj H a b Hinj Wa Wb Oa Ob Ge) as Eep.
+  pose proof (key_fields_length _ _ _ _ _ _ _ Fa) as La.
+  pose proof (key_fields_length _ _ _ _ _ _ _ Fb) as Lb.
+  pose proof (ep_hash_inj fx H a b Hinj Wa Wb Oa Ob Ge) as Eep.
   unfold components. unfold key_fields in Fa, Fb.
   destruct Oa as [_ Pva]. destruct Ob as [_ Pvb].
   destruct (i_kind (st_inst a)) eqn:Kia; destruct (i_kind (st_inst b)) eqn:Kib;
@@ -455,7 +464,7 @@ Proof.
     remember (le64 (ttl_val (st_inst a))) as ta eqn:Hta. remember (le64 (ttl_val (st_inst b))) as tb eqn:Htb.
     injection Fa as <-. injection Fb as Ee Eid Eup Ep Et Es Ev.
     apply Hinj in Es. rewrite !cat_single in Es.
-    pose proof (ordered_values_eq _ _ _ _ _ _ _ _ _ _ Wb Wa Pvb Pva Rb Ra Ev) as Evals.
+    pose proof (ordered_values_eq fx _ _ _ _ _ _ _ _ _ _ Wb Wa Pvb Pva Rb Ra Ev) as Evals.
     eexists. rewrite (Eep (eq_sym Ee)), Eid, Eup, Ep, Et, Es, Evals. split; reflexivity.
   - (* generic contextualizer *)
     destruct (rendered (st_inst a) (st_req a)) as [[va pa]|] eqn:Ra; [|discriminate].
@@ -463,7 +472,7 @@ Proof.
     remember (le64 (ttl_val (st_inst a))) as ta eqn:Hta. remember (le64 (ttl_val (st_inst b))) as tb eqn:Htb.
     injection Fa as <-. injection Fb as Ee Eid Efh Efc Ep Et Es Ev.
     apply Hinj in Es. rewrite !cat_single in Es.
-    pose proof (ordered_values_eq _ _ _ _ _ _ _ _ _ _ Wb Wa Pvb Pva Rb Ra Ev) as Evals.
+    pose proof (ordered_values_eq fx _ _ _ _ _ _ _ _ _ _ Wb Wa Pvb Pva Rb Ra Ev) as Evals.
     eexists. rewrite (Eep (eq_sym Ee)), Eid, Efh, Efc, Ep, Et, Es, Evals. split; reflexivity.
 Qed.
 
@@ -489,6 +498,12 @@ Proof. apply list_eqb_refl, kv_eqb_refl. Qed.
 
 Lemma auth_eqb_refl a : auth_eqb a a = true.
 Proof. destruct a; simpl; auto; now rewrite !String.eqb_refl. Qed.
+
+Lemma strs_eqb_refl' l : strs_eqb l l = true.
+Proof. apply list_eqb_refl. apply String.eqb_refl. Qed.
+
+Lemma expr_eqb_eq_refl x : expr_eqb x x = true.
+Proof. destruct x; simpl; auto; apply String.eqb_refl. Qed.
 
 Lemma ep_eqb_refl e : ep_eqb e e = true.
 Proof. unfold ep_eqb. now rewrite tpl_eqb_refl, String.eqb_refl, (list_eqb_refl _ kt_eqb_refl), auth_eqb_refl. Qed.
@@ -554,29 +569,39 @@ Proof.
   - destruct (rendered (st_inst s) (st_req s)) as [[v p]|]; [|discriminate]. intro E. now injection E as <-.
 Qed.
 
-(** Two look-ups with the same key components are answered alike by a fresh
-    evaluation, outside the guards of C11-F2 (assertions), F3 (expressions), F6
+(** what the remote system answers to the request a fresh evaluation sends *)
+Definition answer_of (w : world) (s : step) : option answer :=
+  option_map (remote_answer w (i_kind (st_inst s)) (q_cred (st_req s))) (mk_sent (st_inst s) (st_req s)).
+
+Lemma exec_fresh_answer w s :
+  exec_fresh w (st_inst s) (st_req s) =
+  match answer_of w s with
+  | None => (OErr, 0)
+  | Some Refused => (refusal (i_kind (st_inst s)), 1)
+  | Some (Answer r) => (if policy_ok (st_inst s) r then OAllow r else ODeny, 1)
+  end.
+Proof.
+  unfold exec_fresh, answer_of. destruct (mk_sent _ _); simpl; [destruct (remote_answer _ _ _ _)|]; reflexivity.
+Qed.
+
+(** Two look-ups with the same key components send the same request to the
+    remote system and get the same answer, outside the guards of C11-F6
     (forwarded values, generic authenticator's payload) and F7 (outputs in
     endpoint templates). *)
-Theorem components_determine_fresh : forall w a b c,
+Theorem components_determine_answer : forall w a b c,
   components a = Some c -> components b = Some c ->
   enabled (st_inst a) = true -> enabled (st_inst b) = true ->
   json_faithful a b ->
-  p_F2 a b = false -> p_F3 a b = false -> p_F6 a b = false -> p_F7 a b = false ->
-  exec_fresh w (st_inst a) (st_req a) = exec_fresh w (st_inst b) (st_req b).
+  p_F6 a b = false -> p_F7 a b = false ->
+  answer_of w a = answer_of w b.
 Proof.
-  intros w a b c Ca Cb Ea Eb J G2 G3 G6 G7.
+  intros w a b c Ca Cb Ea Eb J G6 G7.
   pose proof (components_kind a c Ca) as Ka. pose proof (components_kind b c Cb) as Kb.
   assert (Kab : i_kind (st_inst b) = i_kind (st_inst a)) by congruence. clear Ka Kb.
-  unfold components in Ca, Cb. unfold exec_fresh, mk_sent, policy_ok.
+  unfold components in Ca, Cb. unfold answer_of, mk_sent.
   destruct (i_kind (st_inst a)) eqn:Kia; rewrite Kab in *.
   - (* introspection *)
-    injection Ca as <-. injection Cb as Ee Ec. rewrite Ee, Ec.
-    destruct (remote_answer _ _ _ _) as [|r]; [reflexivity|].
-    assert (Es : i_scopes (st_inst a) = i_scopes (st_inst b)).
-    { unfold p_F2, both, is_kind in G2. rewrite Kia, Kab, Ea, Eb, <- Ee, Ec, String.eqb_refl, ep_eqb_refl in G2.
-      simpl in G2. apply negb_false_iff in G2. now apply strs_eqb_eq. }
-    now rewrite Es.
+    injection Ca as <-. injection Cb as Ee Ec. now rewrite Ee, Ec.
   - (* generic authenticator *)
     injection Ca as <-. injection Cb as Ee Ec.
     unfold p_F6, both, forwards in G6. rewrite Kia, Kab, Ea, Eb in G6. simpl in G6.
@@ -603,14 +628,7 @@ Proof.
     rewrite (mk_request_ext _ {| rc_sub := Some (q_sub_id (st_req b)); rc_values := Some va;
                                  rc_outputs := Some (q_outputs (st_req b)); rc_req := None; rc_auth := None |}
                (st_inst a) (st_inst b) (st_req a) (st_req b) pa false (eq_sym Ee)).
-    + destruct (mk_request _ _ _ _ _) as [s|]; [|reflexivity].
-      destruct (remote_answer _ _ _ _) as [|r] eqn:RA.
-      * reflexivity.
-      * assert (Ex : i_exprs (st_inst a) = i_exprs (st_inst b)).
-        { unfold p_F3, both, is_kind in G3. rewrite Kia, Kab, Ea, Eb, Ra, Rb in G3. simpl in G3.
-          rewrite alist_eqb_refl, String.eqb_refl, <- Es, String.eqb_refl in G3. simpl in G3.
-          apply negb_false_iff in G3. now apply (list_eqb_eq _ expr_eqb_eq). }
-        now rewrite Ex.
+    + destruct (mk_request _ _ _ _ _) as [s|]; reflexivity.
     + repeat split; simpl; congruence.
     + rewrite <- Ee. destruct Eo as [Eo|Eo]; [left; exact Eo | right; simpl; congruence].
     + discriminate.
@@ -631,13 +649,39 @@ Proof.
     rewrite (mk_request_ext _ {| rc_sub := Some (q_sub_id (st_req b)); rc_values := Some va;
                                  rc_outputs := Some (q_outputs (st_req b)); rc_req := None; rc_auth := None |}
                (st_inst a) (st_inst b) (st_req a) (st_req b) pa true (eq_sym Ee)).
-    + destruct (mk_request _ _ _ _ _) as [s|]; [|reflexivity].
-      destruct (remote_answer _ _ _ _) as [|r] eqn:RA.
-      * reflexivity.
-      * reflexivity.
+    + destruct (mk_request _ _ _ _ _) as [s|]; reflexivity.
     + repeat split; simpl; congruence.
     + rewrite <- Ee. destruct Eo as [Eo|Eo]; [left; exact Eo | right; simpl; congruence].
     + auto.
+Qed.
+
+(** with the same components, the policies of two instances agree outside the guards of C11-F2 / F3 *)
+Lemma policy_same w a b c r :
+  components a = Some c -> components b = Some c ->
+  enabled (st_inst a) = true -> enabled (st_inst b) = true ->
+  match i_kind (st_inst a) with
+  | KIntro => p_F2 a b = false
+  | KRemote => p_F3 a b = false
+  | KGen | KCtx => True
+  end ->
+  answer_of w a = Some (Answer r) ->
+  policy_ok (st_inst b) r = policy_ok (st_inst a) r.
+Proof.
+  intros Ca Cb Ea Eb G _.
+  pose proof (components_kind a c Ca) as Ka. pose proof (components_kind b c Cb) as Kb.
+  assert (Kab : i_kind (st_inst b) = i_kind (st_inst a)) by congruence. clear Ka Kb.
+  unfold components in Ca, Cb. unfold policy_ok.
+  destruct (i_kind (st_inst a)) eqn:Kia; rewrite Kab in *; try reflexivity.
+  - injection Ca as <-. injection Cb as Ee Ec.
+    unfold p_F2, both, is_kind in G. rewrite Kia, Kab, Ea, Eb, <- Ee, Ec, String.eqb_refl, ep_eqb_refl in G.
+    simpl in G. apply negb_false_iff in G. apply strs_eqb_eq in G. now rewrite G.
+  - destruct (rendered (st_inst a) (st_req a)) as [[va pa]|] eqn:Ra; [|discriminate].
+    destruct (rendered (st_inst b) (st_req b)) as [[vb pb]|] eqn:Rb; [|discriminate].
+    remember (le64 (ttl_val (st_inst a))) as ta eqn:Hta. remember (le64 (ttl_val (st_inst b))) as tb eqn:Htb.
+    injection Ca as <-. injection Cb as Ee Eid Eup Ep Et Es Ev. subst vb pb. clear Hta Htb Et.
+    unfold p_F3, both, is_kind in G. rewrite Kia, Kab, Ea, Eb, Ra, Rb in G. simpl in G.
+    rewrite alist_eqb_refl, String.eqb_refl, <- Es, String.eqb_refl in G. simpl in G.
+    apply negb_false_iff in G. apply (list_eqb_eq _ expr_eqb_eq) in G. now rewrite G.
 Qed.
 
 (* ------------------------------------------------------------------ cache transparency outside the guards *)
@@ -668,38 +712,72 @@ Definition wf_history (h : list step) : Prop :=
   (forall s, In s h -> wf_instb (st_inst s) = true /\ orders_valid s) /\
   (forall a b, In a h -> In b h -> json_faithful a b).
 
-Lemma pair_guards_compatible H w a b k r :
+Lemma pair_guards_compatible fx H w a b k r :
   injective H ->
   wf_instb (st_inst a) = true -> wf_instb (st_inst b) = true -> orders_valid a -> orders_valid b ->
   json_faithful a b ->
-  p_F2 a b = false -> p_F3 a b = false -> p_F4 H a b = false -> p_F6 a b = false -> p_F7 a b = false ->
-  key_of H a = Some k -> key_of H b = Some k -> fresh_of w a = OAllow r -> fresh_of w b = OAllow r.
+  (fx2 fx = true \/ p_F2 a b = false) -> (fx3 fx = true \/ p_F3 a b = false) ->
+  p_F4 fx H a b = false -> p_F6 a b = false -> p_F7 a b = false ->
+  key_of fx H a = Some k -> key_of fx H b = Some k -> fresh_of w a = OAllow r ->
+  recheck fx (st_inst b) r = fresh_of w b.
 Proof.
   intros Hinj Wa Wb Oa Ob J G2 G3 G4 G6 G7 Ka Kb Fa.
-  destruct (key_injective H a b k Hinj Wa Wb Oa Ob Ka Kb G4) as (c & Ca & Cb).
-  destruct (key_of_some H a k Ka) as (Ea & _). destruct (key_of_some H b k Kb) as (Eb & _).
-  unfold fresh_of in *.
-  now rewrite <- (components_determine_fresh w a b c Ca Cb Ea Eb J G2 G3 G6 G7).
+  destruct (key_injective fx H a b k Hinj Wa Wb Oa Ob Ka Kb G4) as (c & Ca & Cb).
+  destruct (key_of_some fx H a k Ka) as (Ea & _). destruct (key_of_some fx H b k Kb) as (Eb & _).
+  pose proof (components_determine_answer w a b c Ca Cb Ea Eb J G6 G7) as EA.
+  unfold fresh_of in *. rewrite exec_fresh_answer in Fa. rewrite exec_fresh_answer. rewrite <- EA.
+  destruct (answer_of w a) as [[|r0]|] eqn:An; simpl in Fa.
+  - destruct (i_kind (st_inst a)); discriminate.
+  - destruct (policy_ok (st_inst a) r0) eqn:Pa; [|discriminate]. injection Fa as ->. simpl.
+    pose proof (components_kind a c Ca) as Kia. pose proof (components_kind b c Cb) as Kib.
+    assert (Kab : i_kind (st_inst b) = i_kind (st_inst a)) by congruence.
+    unfold recheck. rewrite Kab.
+    destruct (i_kind (st_inst a)) eqn:Kk.
+    + destruct G2 as [G2|G2].
+      * rewrite G2. simpl. now destruct (policy_ok (st_inst b) r).
+      * rewrite (policy_same w a b c r Ca Cb Ea Eb); [| rewrite Kk; exact G2 | exact An].
+        rewrite Pa. now rewrite andb_false_r.
+    + rewrite (policy_same w a b c r Ca Cb Ea Eb); [| now rewrite Kk | exact An]. now rewrite Pa.
+    + destruct G3 as [G3|G3].
+      * rewrite G3. simpl. now destruct (policy_ok (st_inst b) r).
+      * rewrite (policy_same w a b c r Ca Cb Ea Eb); [| rewrite Kk; exact G3 | exact An].
+        rewrite Pa. now rewrite andb_false_r.
+    + rewrite (policy_same w a b c r Ca Cb Ea Eb); [| now rewrite Kk | exact An]. now rewrite Pa.
+  - discriminate.
 Qed.
 
 (** Cache transparency: for a collision-free SHA-256 and every history of
     look-ups (any mechanism instances, requests and iteration orders) on which
     none of the guards of C11-F2, F3, F4, F6, F7 fires, every outcome with the
-    cache equals the outcome of a fresh evaluation. *)
-Theorem cache_transparent : forall H w h,
+    cache equals the outcome of a fresh evaluation.  With the repair of F2 (F3)
+    the guard of F2 (F3) is not needed. *)
+Theorem cache_transparent : forall fx H w h,
   injective H -> wf_history h ->
-  g_F2 h = false -> g_F3 h = false -> g_F4 H h = false -> g_F6 h = false -> g_F7 h = false ->
-  map sr_out (run_cached H w [] h) = map fst (run_fresh w h).
+  (fx2 fx = true \/ g_F2 h = false) -> (fx3 fx = true \/ g_F3 h = false) ->
+  g_F4 fx H h = false -> g_F6 h = false -> g_F7 h = false ->
+  map sr_out (run_cached fx H w [] h) = map fst (run_fresh w h).
 Proof.
-  intros H w h Hinj [Wf Js] G2 G3 G4 G6 G7. apply cache_transparent_steps.
+  intros fx H w h Hinj [Wf Js] G2 G3 G4 G6 G7. apply cache_transparent_steps.
   intros a b k r Ia Ib Ka Kb Fa.
-  destruct (exists_pair_false _ h a b G2 Ia Ib) as [->|[P2 _]]; [exact Fa|].
-  destruct (exists_pair_false _ h a b G3 Ia Ib) as [->|[P3 _]]; [exact Fa|].
-  destruct (exists_pair_false _ h a b G4 Ia Ib) as [->|[P4 _]]; [exact Fa|].
-  destruct (exists_pair_false _ h a b G6 Ia Ib) as [->|[P6 _]]; [exact Fa|].
-  destruct (exists_pair_false _ h a b G7 Ia Ib) as [->|[P7 _]]; [exact Fa|].
   destruct (Wf a Ia) as [Wa Oa]. destruct (Wf b Ib) as [Wb Ob].
-  eapply (pair_guards_compatible H w a b k r); eauto.
+  assert (Self : forall s, In s h -> key_of fx H s = Some k -> fresh_of w s = OAllow r ->
+                           recheck fx (st_inst s) r = fresh_of w s).
+  { intros s Is Ks Fs. rewrite Fs. unfold recheck.
+    unfold fresh_of in Fs. rewrite exec_fresh_answer in Fs.
+    destruct (answer_of w s) as [[|r0]|]; simpl in Fs; try discriminate.
+    - destruct (i_kind (st_inst s)); discriminate.
+    - destruct (policy_ok (st_inst s) r0) eqn:P; [|discriminate]. injection Fs as ->.
+      rewrite P. now rewrite andb_false_r. }
+  destruct (exists_pair_false _ h a b G4 Ia Ib) as [->|[P4 _]]; [now apply Self|].
+  destruct (exists_pair_false _ h a b G6 Ia Ib) as [->|[P6 _]]; [now apply Self|].
+  destruct (exists_pair_false _ h a b G7 Ia Ib) as [->|[P7 _]]; [now apply Self|].
+  assert (P2 : fx2 fx = true \/ p_F2 a b = false).
+  { destruct G2 as [G2|G2]; auto. destruct (exists_pair_false _ h a b G2 Ia Ib) as [->|[P2 _]]; auto.
+    right. unfold p_F2. now rewrite strs_eqb_refl', andb_false_r. }
+  assert (P3 : fx3 fx = true \/ p_F3 a b = false).
+  { destruct G3 as [G3|G3]; auto. destruct (exists_pair_false _ h a b G3 Ia Ib) as [->|[P3 _]]; auto.
+    right. unfold p_F3. now rewrite (list_eqb_refl _ expr_eqb_eq_refl), andb_false_r. }
+  eapply (pair_guards_compatible fx H w a b k r); eauto.
 Qed.
 
 (* ------------------------------------------------------------------ the hypotheses are satisfiable *)
@@ -723,7 +801,7 @@ Definition ok_history : list step :=
 Theorem nonvacuous :
   wf_history ok_history /\
   g_F1 ok_history (Some 0) = false /\ g_F2 ok_history = false /\ g_F3 ok_history = false /\
-  (forall H, (forall x, String.length (H x) = 32) -> g_F4 H ok_history = false) /\
+  (forall fx H, (forall x, String.length (H x) = 32) -> g_F4 fx H ok_history = false) /\
   g_F6 ok_history = false /\ g_F7 ok_history = false /\
   (exists a b, nth_error ok_history 0 = Some a /\ nth_error ok_history 2 = Some b /\ same_request a b = true /\
                enabled (st_inst a) = true /\ order_free (st_inst a) = true /\
@@ -737,6 +815,6 @@ Proof.
     + intros a b Ia Ib.
       repeat (destruct Ia as [<-|Ia]; [repeat (destruct Ib as [<-|Ib]; [intro E; try reflexivity; discriminate E|]); destruct Ib|]).
       destruct Ia.
-  - intros H L. cbv -[String.length Nat.eqb Nat.leb negb orb andb]. rewrite !L. reflexivity.
+  - intros fx H L. destruct fx as [[] f2 f3]; cbv -[String.length Nat.eqb Nat.leb negb orb andb]; rewrite !L; reflexivity.
   - do 2 eexists. splits; try reflexivity. eexists. reflexivity.
 Qed.
